@@ -35,9 +35,9 @@ import warnings
 from collections.abc import Mapping, Sequence
 
 from pywbem import CIMInstance, CIMInstanceName, CIMClass, CIMClassName, \
-    CIMParameter, CIMError, CIM_ERR_NOT_FOUND, CIM_ERR_INVALID_PARAMETER, \
-    CIM_ERR_INVALID_CLASS, CIM_ERR_METHOD_NOT_FOUND, cimtype, \
-    ToleratedSchemaIssueWarning
+    CIMParameter, CIMProperty, CIMError, CIM_ERR_NOT_FOUND, \
+    CIM_ERR_INVALID_PARAMETER, CIM_ERR_INVALID_CLASS, \
+    CIM_ERR_METHOD_NOT_FOUND, cimtype, ToleratedSchemaIssueWarning
 from pywbem._utils import _format
 from pywbem._nocasedict import NocaseDict
 
@@ -366,8 +366,26 @@ class ProviderDispatcher(BaseProvider):
             for pn in property_list:
                 if pn not in modified_instance:
                     # If the property in the class does not have a default
-                    # value, it is None.
-                    modified_instance[pn] = creation_class.properties[pn].value
+                    # value, it is None. The property is built from its
+                    # declaration because the type of a None value cannot be
+                    # inferred.
+                    prop_cls = creation_class.properties[pn]
+                    if prop_cls.qualifiers.get('key', False) and \
+                            prop_cls.value != instance[pn]:
+                        raise CIMError(
+                            CIM_ERR_INVALID_PARAMETER,
+                            _format("Property {0!A} in PropertyList is a key "
+                                    "property that is not in the instance "
+                                    "and thus cannot be set to its default "
+                                    "value, according to its creation class "
+                                    "{1!A} in namespace {2!A} of the CIM "
+                                    "repository",
+                                    pn, ModifiedInstance.classname, namespace))
+                    modified_instance.properties[pn] = CIMProperty(
+                        prop_cls.name, prop_cls.value, type=prop_cls.type,
+                        reference_class=prop_cls.reference_class,
+                        embedded_object=prop_cls.embedded_object,
+                        is_array=prop_cls.is_array)
 
             # Remove properties from modified_instance that are not in
             # PropertyList.
